@@ -275,7 +275,7 @@ Proof.
   intros Hw He. destruct e as [i|k]; cbn [or_insert_with entry_ok] in *.
   - eapply wp_mono; [apply occ_into_mut_spec; assumption | |]; cbn beta; [|tauto].
     intros j w' [-> Hs]. split; [apply inv_post_refl; auto | rewrite Hs; exact He].
-  - apply wp_bind. apply wp_frame; [apply frame_call_mk | |].
+  - apply wp_bind. apply wp_frame; [apply frame_on_unwind; [apply frame_unwind_key | apply frame_call_mk] | |].
     + intros v w' Hs.
       eapply wp_mono; [apply vac_insert_spec; rewrite Hs; exact Hw | |]; cbn beta.
       * intros i w'' [Hinv Hlt]. split; [eapply inv_post_base; eauto | exact Hlt].
@@ -291,7 +291,7 @@ Proof.
   intros Hw He. destruct e as [i|k]; cbn [or_insert_with_key entry_ok] in *.
   - eapply wp_mono; [apply occ_into_mut_spec; assumption | |]; cbn beta; [|tauto].
     intros j w' [-> Hs]. split; [apply inv_post_refl; auto | rewrite Hs; exact He].
-  - apply wp_bind. apply wp_frame; [apply frame_call_mk | |].
+  - apply wp_bind. apply wp_frame; [apply frame_on_unwind; [apply frame_unwind_key | apply frame_call_mk] | |].
     + intros v w' Hs.
       eapply wp_mono; [apply vac_insert_spec; rewrite Hs; exact Hw | |]; cbn beta.
       * intros i w'' [Hinv Hlt]. split; [eapply inv_post_base; eauto | exact Hlt].
